@@ -161,6 +161,33 @@ mod verif_kani {
         }
     }
 
+    // an element type that serializes to ZERO bytes (what a derived unit struct does): a Vec of such elements ends
+    // exactly at the end of the buffer, so the decoder must accept an empty rest for each element
+    struct ZeroSized;
+    impl Serialize for ZeroSized {
+        fn serialize(&self) -> Vec<u8> { vec![] }
+        fn deserialize(_bytes: &[u8]) -> Result<Self, DbError> { Ok(ZeroSized) }
+        fn serialized_size(&self) -> u64 { 0 }
+    }
+    fn roundtrip_vec_zero(v: Vec<ZeroSized>) {
+        let b = v.serialize();
+        assert!(b.len() as u64 == v.serialized_size());
+        match Vec::<ZeroSized>::deserialize(&b) {
+            Ok(d) => assert!(d.len() == v.len()),
+            Err(_) => assert!(false),
+        }
+    }
+
+    #[kani::proof]
+    #[kani::unwind(20)]
+    #[kani::stub(core::panic::Location::caller, stub_caller)]
+    #[kani::stub(alloc::fmt::format, stub_format)]
+    fn c20_vec_zero_size_elements_roundtrip() {
+        roundtrip_vec_zero(vec![]);
+        roundtrip_vec_zero(vec![ZeroSized]);
+        roundtrip_vec_zero(vec![ZeroSized, ZeroSized]);
+    }
+
     // the reported size of a string counts BYTES: one arbitrary char of each multi-byte length class
     // (encoding side only - no decoder, so no UTF-8 validation in the way)
     fn one_char_size(len: usize) {
